@@ -11,7 +11,7 @@ META = {
         "thorough": "all structure types lengths 0..min(m(T)+4,14); shapes of all 117 command codes",
     },
     "outside": "inputs that are neither within N nor an instance of an explored shape",
-    "wall_budget_s": {"quick": 270, "thorough": 1500},
+    "wall_budget_s": {"quick": 270, "thorough": 840},
 }
 
 
